@@ -145,7 +145,7 @@ def run(P, R):
     fm = factmap(cs)
     rs = [c for c in own_nodes(cs.node) if isinstance(c, ast.Call) and call_text(c) == 'self._raise']
     ok = len(rs) == 1 and fault_code(rs[0].args[0]) == 'BAD_SUPVISORS_STATE' and \
-        {tuple(f) for f in fm.at(rs[0])} == {('self.supvisors.fsm.state not in states', True),
+        {tuple(f) for f in fm.at(rs[0])} == {('self.supvisors.fsm.state in states', False),
                                              ('self.supvisors.fsm.state in states', False)}
     R.check(r1, ok, '_check_state raises BAD_SUPVISORS_STATE exactly when the state is not admitted',
             'gate|_check_state', cs.loc(), '_check_state does not raise BAD_SUPVISORS_STATE under exactly '
@@ -235,7 +235,7 @@ def run(P, R):
         fm = factmap(u)
         rs = [c for c in own_nodes(u.node) if isinstance(c, ast.Call) and call_text(c) == 'self._raise' and c.args
               and fault_code(c.args[0]) == 'NOT_MANAGED']
-        ok = len(rs) == 1 and any((f[1] and f[0] == 'application_name not in self.supvisors.context.'
+        ok = len(rs) == 1 and any((not f[1] and f[0] == 'application_name in self.supvisors.context.'
                                    'get_managed_applications()') or (not f[1] and f[0] == 'application.rules.managed')
                                   for f in fm.at(rs[0]))
         R.check(r2, ok, '%s rejects unmanaged applications' % name, 'not-managed|%s' % name, u.loc(),
@@ -245,7 +245,7 @@ def run(P, R):
         fm = factmap(u)
         rs = [c for c in own_nodes(u.node) if isinstance(c, ast.Call) and call_text(c) == 'self._raise' and c.args
               and fault_code(c.args[0]) == 'BAD_NAME']
-        ok = len(rs) >= 1 and any(f[1] and f[0] == 'program_name not in self.supvisors.server_options.program_configs'
+        ok = len(rs) >= 1 and any(not f[1] and f[0] == 'program_name in self.supvisors.server_options.program_configs'
                                   for f in fm.at(rs[0]))
         R.check(r2, ok, '%s rejects unknown programs' % name, 'bad-program|%s' % name, u.loc(),
                 'RPCInterface.%s does not raise BAD_NAME exactly when the program is unknown' % name)
@@ -260,7 +260,7 @@ def run(P, R):
     u = P.unit('RPCInterface.conciliate')
     fm = factmap(u)
     cc = [c for c in own_nodes(u.node) if isinstance(c, ast.Call) and call_text(c) == 'conciliate_conflicts']
-    ok = len(cc) == 1 and {tuple(f) for f in fm.at(cc[0])} == {('strategy_enum != ConciliationStrategies.USER', True),
+    ok = len(cc) == 1 and {tuple(f) for f in fm.at(cc[0])} == {('strategy_enum == ConciliationStrategies.USER', False),
                                                                 ('strategy_enum == ConciliationStrategies.USER', False)}
     R.check(r2, ok, 'conciliate acts only for a strategy other than USER', 'conciliate|user', u.loc(),
             'conciliate calls conciliate_conflicts under other facts than `strategy != USER`')
